@@ -2,6 +2,7 @@ import OpdaProofs.Audit
 import OpdaProofs.NoisyLogic
 import OpdaProofs.NoisyReal
 import OpdaProofs.NoisySmooth
+import OpdaProofs.NoisyHolder
 import OpdaProofs.NoisyConv
 import OpdaProofs.NoisyTable
 /-!
@@ -30,8 +31,9 @@ the 2.5e-5 / 1e-4 / 0.2 / 5e-5 accuracy figures (the proved bounds for odd `c` a
 cdf of `c = 1`: weaker than 2.5e-5), the accuracy of the Chebyshev fallback, of the
 downward step for `k = −½` and of the `normal` regime, float rounding, `Φ(±∞) ∈ {0,1}` at `Float`, the
 step from "law of `Z + E`" to its mixture form `∫ Φ((y−z)/o) dF_Z(z)` (independence + Fubini; the mixture form
-is taken as the Spec here and is what the oracle integrates; likewise the mixture density for the pdf), and the constant `0.83·√(o/(b−a))` of the noiseless regime for `c = 1`
-(`0.4·c·o/(b−a)` for `c ≥ 2` *is* proved: `noiseless_bound`).
+is taken as the Spec here and is what the oracle integrates; likewise the mixture density for the pdf).  Both constants of the
+noiseless regime *are* proved: `0.4·c·o/(b−a)` for `c ≥ 2` (`noiseless_bound`) and `0.83·√(o/(b−a))` for `c = 1`
+(`noiseless_bound_c1`).
 -/
 namespace Opda.Props.C06
 open Opda.Noisy
@@ -231,13 +233,33 @@ theorem pdf_odd_within_eps_partial (d : Params ℝ) (k : ℕ) (hc : d.c = 2 * k 
 /-- **T5 `noiseless_bound` (`c ≥ 2`)**: for `0 < o < 1e-6 (b−a)` the value returned (the noise-free law, the noise
 being deliberately ignored) is within `0.4·c·o/(b−a)` of its convolution with `N(0, o²)`, i.e. of the law of
 `Z + E` (Lipschitz constant `c/(2(b−a))` of the noise-free cdf times `E|E| = o√(2/π)`).  The `c = 1` clause
-(`0.83·√(o/(b−a))`, Hölder-½ with `E|N|^½ = 2^¼ Γ(¾)/√π`) is evaluated against the oracle only. -/
+(`0.83·√(o/(b−a))`) is `noiseless_bound_c1` below. -/
 theorem noiseless_bound (d : Params ℝ) (hab : d.a < d.b) (hc : 2 ≤ d.c) (ho : 0 < d.o)
     (hp : pointMass (realFns T ninf pinf) d = false) (h : regime (realFns T ninf pinf) d = .noiseless) (y : ℝ) :
     |cdf (realFns T ninf pinf) d y
         - ∫ e, cdf (realFns T ninf pinf) d (y - e) ∂(ProbabilityTheory.gaussianReal 0 ⟨d.o ^ 2, sq_nonneg _⟩)|
       ≤ 0.4 * d.c * d.o / (d.b - d.a) :=
   Opda.Noisy.noiseless_bound T ninf pinf d hab hc ho hp h y
+
+/-- **T5 `noiseless_bound_c1` (`c = 1`)**: for `0 < o < 1e-6 (b−a)` and `c = 1`, both shapes, every real `y`, the value
+returned (the noise-free law `√((y−a)/(b−a))` resp. `1 − √((b−y)/(b−a))`, clipped) is within `0.83·√(o/(b−a))` of its
+convolution with `N(0, o²)`: the noise-free cdf is Hölder-½ with constant `1/√(b−a)` on the whole line, and
+`E√|E| = (2o²)^¼ Γ(¾)/√π ≤ 0.83·√o` (`Γ(¾) ≤ 1.2345` from the log-convexity of `Γ` between `9/2` and `5`). -/
+theorem noiseless_bound_c1 (d : Params ℝ) (hab : d.a < d.b) (hc : d.c = 1) (ho : 0 < d.o)
+    (hp : pointMass (realFns T ninf pinf) d = false) (h : regime (realFns T ninf pinf) d = .noiseless) (y : ℝ) :
+    |cdf (realFns T ninf pinf) d y
+        - ∫ e, cdf (realFns T ninf pinf) d (y - e) ∂(ProbabilityTheory.gaussianReal 0 ⟨d.o ^ 2, sq_nonneg _⟩)|
+      ≤ 0.83 * Real.sqrt (d.o / (d.b - d.a)) :=
+  Opda.Noisy.noiseless_bound_c1 T ninf pinf d hab hc ho hp h y
+
+/-- **T5, `c = 1`, the exact constant**: the same difference is at most `K·√o/√(b−a)` with
+`K·√o = (2o²)^¼ Γ(¾)/√π` (`K = 2^¼ Γ(¾)/√π = 0.82218…`), the absolute moment of order ½ of the noise written out. -/
+theorem noiseless_bound_c1_exactK (d : Params ℝ) (hab : d.a < d.b) (hc : d.c = 1) (ho : 0 < d.o)
+    (hp : pointMass (realFns T ninf pinf) d = false) (h : regime (realFns T ninf pinf) d = .noiseless) (y : ℝ) :
+    |cdf (realFns T ninf pinf) d y
+        - ∫ e, cdf (realFns T ninf pinf) d (y - e) ∂(ProbabilityTheory.gaussianReal 0 ⟨d.o ^ 2, sq_nonneg _⟩)|
+      ≤ (2 * d.o ^ 2) ^ (1 / 4 : ℝ) * Real.Gamma (3 / 4) / Real.sqrt Real.pi / Real.sqrt (d.b - d.a) :=
+  Opda.Noisy.noiseless_bound_c1_exactK T ninf pinf d hab hc ho hp h y
 
 end real
 
@@ -339,6 +361,14 @@ end shipped
 example : pointMass (realFns [] 0 0) { a := 0, b := 1, c := 3, o := 1/10000000, convex := false } = false
     ∧ regime (realFns [] 0 0) { a := 0, b := 1, c := 3, o := 1/10000000, convex := false } = .noiseless := by
   constructor
+  · rw [Bool.eq_false_iff, Ne, pointMass_iff (realFns_lawful [] 0 0)]; norm_num
+  · rw [regime_noiseless_iff (realFns_lawful [] 0 0)]; norm_num
+
+/-- the hypotheses of `noiseless_bound_c1` are satisfiable: `a=0, b=1, c=1, o=1e-7`, either shape -/
+example (cv : Bool) : (0:ℝ) < 1 ∧ (1:ℕ) = 1 ∧ (0:ℝ) < 1/10000000
+    ∧ pointMass (realFns [] 0 0) { a := 0, b := 1, c := 1, o := 1/10000000, convex := cv } = false
+    ∧ regime (realFns [] 0 0) { a := 0, b := 1, c := 1, o := 1/10000000, convex := cv } = .noiseless := by
+  refine ⟨by norm_num, rfl, by norm_num, ?_, ?_⟩
   · rw [Bool.eq_false_iff, Ne, pointMass_iff (realFns_lawful [] 0 0)]; norm_num
   · rw [regime_noiseless_iff (realFns_lawful [] 0 0)]; norm_num
 
